@@ -12,12 +12,12 @@ var TInts = Type{Base: "int", Slice: true}
 var TBools = Type{Base: "bool", Slice: true}
 var TStrings = Type{Base: "string", Slice: true}
 
-func Idx(s string, i Expr) Expr { return IndexE{S: V(s), I: i} }
-func Ints(es ...Expr) Expr      { return SliceLit{Elem: TInt, Elems: es} }
-func Strs(es ...Expr) Expr      { return SliceLit{Elem: TString, Elems: es} }
-func Bools(es ...Expr) Expr     { return SliceLit{Elem: TBool, Elems: es} }
+func Idx(s string, i Expr) Expr     { return IndexE{S: V(s), I: i} }
+func Ints(es ...Expr) Expr          { return SliceLit{Elem: TInt, Elems: es} }
+func Strs(es ...Expr) Expr          { return SliceLit{Elem: TString, Elems: es} }
+func Bools(es ...Expr) Expr         { return SliceLit{Elem: TBool, Elems: es} }
 func SSet(n string, i, v Expr) Stmt { return SliceSet{Name: n, I: i, Val: v} }
-func Len(e Expr) Expr           { return LenE{X: e} }
+func Len(e Expr) Expr               { return LenE{X: e} }
 
 func c02Shapes() []Shape {
 	var sh []Shape
